@@ -6,9 +6,10 @@
 import json, os, re, subprocess, sys
 d = os.path.abspath(sys.argv[1])
 suite = "--suite" in sys.argv
-WT = "/tmp/mconfirm/wt"
-env = dict(os.environ, GOFLAGS="-mod=mod", GOPROXY="off", TMPDIR="/tmp/mconfirm/tmp")
-os.makedirs("/tmp/mconfirm/tmp", exist_ok=True)
+BASE = os.environ.get("MCONFIRM", "/tmp/mconfirm")
+WT = BASE + "/wt"
+env = dict(os.environ, GOFLAGS="-mod=mod", GOPROXY="off", TMPDIR=BASE + "/tmp")
+os.makedirs(BASE + "/tmp", exist_ok=True)
 def sh(cmd, cwd=None, t=2400):
     p = subprocess.run(cmd, shell=True, cwd=cwd, env=env, stdout=subprocess.PIPE, stderr=subprocess.STDOUT, text=True, timeout=t)
     return p.returncode, p.stdout
@@ -44,7 +45,7 @@ res["demo_with_patch"] = "fail" if rc1 != 0 else "PASS"
 res["demo_cmd"] = cmd
 if suite:
     os.remove(os.path.join(WT, dest))
-    rc, out = sh("go test -count=1 ./... 2>&1", cwd=WT)
+    rc, out = sh("go test -count=1 -timeout 60m ./... 2>&1", cwd=WT, t=4000)
     bad = [l for l in out.split("\n") if re.match(r"^(--- FAIL|FAIL|panic:)", l) and not re.search(r"TestRoundtripSchemaSchema|TestParseSchemaSchema|TestParse |schema/(dmt|dsl)|^FAIL$", l)]
     res["suite_unexpected_failures"] = bad[:10]
 sh("git checkout -q -- .; git clean -qfd", cwd=WT)
